@@ -113,8 +113,9 @@ def requirement(t, tag, i, quantity, target, consts, scale, diffs=(0.0,)):
     tmpl, pred = FORMS[fi]
     if quantity == "rh" and "{m}" in tmpl and m:  # |Q - d| < w, written with either sign of the constant
         c, m = w, (-m if "+" in tmpl else m)
-    if "abs" in tmpl and "{a}" in tmpl:  # a lower bound that leaves something feasible
+    if "abs" in tmpl and "{a}" in tmpl:  # a lower bound that leaves something feasible; one time in three negative, i.e. trivially true
         a = (0.5 * w if "{m}" in tmpl and m else max(abs(d) - w, 0.05)) if quantity == "rh" else scale * [0.1, 0.3, 0.05][t.draw(3, tag + "labs")]
+        a = [a, a, -0.5, a, a, -0.05 * scale][t.draw(6, tag + "neg")]
     named = t.draw(4, tag + "named") == 3  # constants through a global name / an expression
     val = {n: round(float(v), 6) for n, v in (("a", a), ("b", b), ("c", c), ("m", m))}
 
@@ -253,9 +254,12 @@ def gen(t):
             else:
                 lo = ANG[t.draw(5, f"o{i}.f0")] - 0.5
                 o.spec.append(f"facing Range({num(lo)}, {num(lo + 1.0 + t.draw(3, f'o{i}.f0b'))})")
-            if i and (v := t.weighted([2, 1, 1], f"o{i}.vis")):
-                o.spec.append(["with requireVisible True", "visible from ego"][v - 1])
-                o.require_visible, o.visible_from = v == 1, ("ego" if v == 2 else None)
+            if i and (v := t.weighted([2, 1, 3], f"o{i}.vis")):
+                src = names[t.draw(i, f"o{i}.from")]  # observed from the ego or from an earlier object
+                o.spec.append(["with requireVisible True", f"visible from {src}"][v - 1])
+                o.require_visible, o.visible_from = v == 1, (src if v == 2 else None)
+            if i and (vd := t.draw(5, f"o{i}.vd")) >= 2:  # the observed object's own view distance differs from the observer's
+                o.spec.append(f"with visibleDistance {num([6, 12, 25][vd - 2])}")
             P.objs.append(o)
         if t.draw(2, "ego-vd"):
             P.objs[0].spec.append(f"with visibleDistance {num([15, 30, 6][t.draw(3, 'ego-vdv')])}")
@@ -279,7 +283,11 @@ def gen(t):
         else:
             c = (0.12 * W * zig(t.draw(5, "ego-x")), 0.12 * W * zig(t.draw(3, "ego-y")), 0.0 if flat else 3.0)
             ego.spec.append(f"at {vec(c)}")
-        facing(t, "ego.", ego, tilt=False)
+        if t.draw(4, "diamond") == 3:  # the observer's heading is a heavily shared random expression: 2**k paths through ~2k nodes
+            lines += ["hx = Range(-1, 1)", f"for _k in range({16 + 2 * t.draw(3, 'diamond-depth')}):", "    hx = (hx + hx) / 2"]
+            ego.spec.append("facing hx")
+        else:
+            facing(t, "ego.", ego, tilt=False)
         ego.spec.append(f"with visibleDistance {num([5, 3, 8, 0.6, 1.5][t.weighted([4, 4, 2, 1, 2], 'vd')])}")
         va = t.draw(4, "view")
         if va:
@@ -309,9 +317,12 @@ def gen(t):
         allh = [h for f in P.fields.values() for h in f]
         diffs = sorted({round(norm_angle(h2 - h1), 6) for h1 in allh for h2 in allh}, key=lambda d: (abs(d), d))
         bounded = P.objs[1].require_visible or P.objs[1].visible_from
-        for i in range(max(1 + t.weighted([2, 3, 1], "nreq"), 1 if bounded else 2)):
+        # (when a visibility relation already bounds the distance to o1, a distance statement about o1 is the exception,
+        # so that the bound from the observer's view distance is the one that decides)
+        for i in range(max(1 + t.weighted([3, 2, 1] if bounded else [2, 3, 1], "nreq"), 1 if bounded else 2)):
             q = "rh" if i == 0 or (i > 1 and t.draw(3, f"q{i}.quantity") == 2) else "dist"
-            P.reqs.append(requirement(t, f"q{i}.", i, q, names[1 if i < 2 else 1 + t.draw(nobj - 1, f"q{i}.target")], consts, 24.0, diffs))
+            tgt = names[1 if i == 0 or (i == 1 and (not bounded or nobj == 2)) else 1 + t.draw(nobj - 1, f"q{i}.target") if not bounded else nobj - 1]
+            P.reqs.append(requirement(t, f"q{i}.", i, q, tgt, consts, 24.0, diffs))
     elif nobj > 1 and t.draw(2, "nreq"):
         P.reqs.append(requirement(t, "q0.", 0, "dist", names[1 + t.draw(nobj - 1, "q0.target")], consts, S if fam < 2 else W))
     P.text = HEADER + "\n".join(consts + lines + [r.text for r in P.reqs]) + "\n"
